@@ -31,3 +31,16 @@ pub proof fn lemma_utf8_enr()
     assert(s.drop_first().drop_first().drop_first().drop_first() =~= Seq::<char>::empty());
     assert(vstd::utf8::encode_utf8(s) =~= seq![0x65u8, 0x6eu8, 0x72u8, 0x3au8]);
 }
+
+pub proof fn lemma_utf8_0x()
+    ensures utf8(seq!['0', 'x']) == seq![0x30u8, 0x78u8],
+{
+    reveal_with_fuel(vstd::utf8::encode_utf8, 4);
+    assert(('0' as u32) == 0x30 && ('x' as u32) == 0x78);
+    assert(0x30u32 & 127 == 0x30) by (bit_vector);
+    assert(0x78u32 & 127 == 0x78) by (bit_vector);
+    let s = seq!['0', 'x'];
+    assert(s.drop_first() =~= seq!['x']);
+    assert(s.drop_first().drop_first() =~= Seq::<char>::empty());
+    assert(vstd::utf8::encode_utf8(s) =~= seq![0x30u8, 0x78u8]);
+}
